@@ -62,7 +62,11 @@ Fixpoint run_model (fill fixed : bool) (c : cfg) (s : state) (ops : list op) : b
        | Ok l => if ordered then list_eqb blk_eqb (stored_blocks s req) l else same_blocks (stored_blocks s req) l
        | _ => false
        end) && run_model fill fixed c s t
-    | OExtents e => ext_eqb (ext s) e && run_model fill fixed c s t
+    | OExtents e =>
+      (* a version with no write in its ancestry has no stored extents; GetExtents then falls back
+         to the instance-level Properties ("old dataset"), i.e. to whatever any version persisted
+         last: not a per-version quantity, any answer is accepted there *)
+      (match ext s with None => true | Some _ => ext_eqb (ext s) e end) && run_model fill fixed c s t
     end
   end.
 
@@ -293,5 +297,6 @@ Definition c17_model_mismatch (l : list c17case) : list nat := find_idx (fun c =
 (* test pattern: byte i = (a + i * s) mod 251 + 1  (never 0, period 251) *)
 Definition pat (a s n : Z) : bytes := map (fun i => Z.to_N ((a + i * s) mod 251 + 1)) (zseq n).
 Definition rp (v : N) (n : nat) : bytes := repeat v n.
+Definition tile (v : bytes) (n : nat) : bytes := concat (repeat v n).
 Definition spl (l : list (Z * Z * Z * Z)) : list span :=
   map (fun q => match q with (z, y, x0, x1) => SP z y x0 x1 end) l.
